@@ -65,8 +65,9 @@ def gen(seed, tier):
 
     # --- exhaustive histories over small handler sets taken from {0, 0, 127250, 127250, 129029}
     if thorough:
-        plans = [([0, 0, 127250], 7), ([0, 127250, 127250], 7), ([127250, 127250, 129029], 6), ([0, 127250, 129029], 6),
-                 ([0, 0, 127250, 127250], 6), ([0, 127250, 127250, 129029], 5)]
+        plans = [([0, 0], 7), ([0, 127250], 7), ([127250, 127250], 7),
+                 ([0, 0, 127250], 6), ([0, 127250, 127250], 6), ([127250, 127250, 129029], 5), ([0, 127250, 129029], 5),
+                 ([0, 0, 127250, 127250], 5), ([0, 127250, 127250, 129029], 4)]
     else:
         plans = [([0, 0, 127250], 5), ([0, 127250, 127250], 5), ([127250, 127250, 129029], 4), ([0, 127250, 129029], 4),
                  ([0, 0, 127250, 127250], 4)]
@@ -193,12 +194,13 @@ def oracle(case, res):
 
 def check(run, replay=None):
     cases = vlib.read_replay(replay) if replay else vlib.corpus_lines('C14') + gen(run.seed, run.tier)
-    run.cov['rule'] = ('ALL histories of 1..5 (quick; up to 7 thorough) state-changing operations {construct (plain / with bus 1 / with bus 2), attach to bus 1 / 2 '
-                       '(incl. attaching again to the same bus), detach (also through the other bus object, also when not attached), destroy} over handler sets '
-                       '{0,0,127250}, {0,127250,127250} (length 5/7), {127250,127250,129029}, {0,127250,129029}, {0,0,127250,127250} (length 4/6) on two bus objects, up to '
-                       'bus and equal-PGN handler symmetry, half of them with the plain callback set; ALL attach/detach histories of length 1..3 (4) over the five handlers '
-                       '{0,0,127250,127250,129029}; all 120 insertion orders of those five followed by each single detach / move to the other bus / destroy and re-attach; '
-                       'random histories of 5..600 operations over six objects with PGNs incl. 0, 1, 2^32-1 and operations on destroyed objects. Every history ends with '
-                       'RunMessageHandlers on both buses for PGN 0, every handler PGN and PGNs below/between/above. Extracted model (with the abstract machine run alongside), '
-                       'C++ and the Python oracle are compared on every call list, the final lists and the object table; non-trivial = distinct history')
+    run.cov['rule'] = ('ALL histories of 1..L state-changing operations {construct (plain / with bus 1 / with bus 2), attach to bus 1 / 2 (incl. attaching again to the same '
+                       'bus), detach (also through the other bus object, also when not attached), destroy} on two bus objects, up to bus and equal-PGN handler symmetry, half of '
+                       'them with the plain callback set; quick: handler sets {0,0,127250}, {0,127250,127250} with L=5, {127250,127250,129029}, {0,127250,129029}, '
+                       '{0,0,127250,127250} with L=4; thorough: two-handler sets {0,0}, {0,127250}, {127250,127250} with L=7, the three-handler sets with L=6/5, four-handler sets '
+                       'with L=5/4; ALL attach/detach histories of length 1..3 (4 thorough) over the five handlers {0,0,127250,127250,129029}; all 120 insertion orders of those '
+                       'five followed by each single detach / move to the other bus / destroy and re-create; random histories of 5..600 operations over six objects with PGNs '
+                       'incl. 0, 1, 2^32-1 and operations on destroyed objects. Every history ends with RunMessageHandlers on both buses for PGN 0, every handler PGN and PGNs '
+                       'below/between/above. Extracted model (with the abstract machine run alongside), C++ and the Python oracle are compared on every call list, the final '
+                       'lists and the object table; non-trivial = distinct history')
     vlib.correspond(run, 'handlers', 'h_handlers', 'w64', 'C14', cases, oracle, None)
